@@ -133,6 +133,29 @@ fn oneshot_str(input: &str) -> Result<(), (String, String)> {
             }
         }
     }
+    // formatted writes of the same text: as one `&str` argument, character by character as `char` arguments, and
+    // through a `Display` impl that hands the formatter one character at a time
+    struct ByChar<'a>(&'a str);
+    impl std::fmt::Display for ByChar<'_> {
+        fn fmt(&self, f: &mut std::fmt::Formatter<'_>) -> std::fmt::Result {
+            use std::fmt::Write as _;
+            self.0.chars().try_for_each(|c| f.write_char(c))
+        }
+    }
+    for how in ["write!(\"{}\", &str)", "write!(\"{}\", char) per character", "write!(\"{}\", Display using write_char)"] {
+        let mut s = anstream::StripStream::new(Vec::new());
+        let mut a = anstream::AutoStream::never(Vec::new());
+        let r = match how.as_bytes()[13] {
+            b'&' => write!(s, "{}", input).and_then(|_| write!(a, "{}", input)),
+            b'c' => input.chars().try_for_each(|c| write!(s, "{}", c).and_then(|_| write!(a, "{}", c))),
+            _ => write!(s, "{}", ByChar(input)).and_then(|_| write!(a, "{}", ByChar(input))),
+        };
+        r.map_err(|e| (format!("StripStream.{how}"), format!("error {e}")))?;
+        for (name, out) in [("StripStream", s.into_inner()), ("AutoStream::never", a.into_inner())] {
+            let mut m = StripModel::default();
+            m.check_output(input.as_bytes(), &out).map_err(|m| (format!("{name}.{how}"), format!("{m} (output {})", show(&out))))?;
+        }
+    }
     Ok(())
 }
 
